@@ -12,6 +12,9 @@ META = {
     "level": "Decides the structural clauses: (R1) all senders of size-prefixed payloads use write_sized, which measures the encoded payload; __ebd_read_size reads exactly N bytes raw (-r, -N, C locale) into the named variable and dies on failure; every bash consumer of a sized payload uses it. (R2) scalar quoting: alnum bare, else single quotes when the value has none, else $'..' with backslash escaped BEFORE the quote; array elements are double-quoted with exactly \\ \" $ ` escaped, backslash first. (R3) the non-exported marker is split into a set of names and tested by membership; marked names are emitted as bare assignments on their own line, others after `export`. (R4) inline and file routes send the same generated text and wait for env_received; the daemon evals/sources it and answers env_received / env_receiving_failed. Does NOT decide what a concrete bash build does with concrete bytes.",
     "note": "",
 }
+META["technique"] += "; " + 'effect analysis on environment rendering'
+META["level"] += " Added after the second round of independent changes: " + "(R5) _generate_env_str does not edit the caller's mapping."
+META["technique"] += "; " + 'generic pack G on the anchored files (optional-flag shift, closures outliving a loop iteration, single-pass iterables consumed twice, %-templates built from data, in-place writes to class-level / memoised objects, generators mutating what they yielded, memo keys that are projections)'
 MOD = "pkgcore.ebuild.processor"
 LIB = "data/lib/pkgcore/ebd/ebuild-daemon-lib.bash"
 DAEMON = "data/lib/pkgcore/ebd/ebuild-daemon.bash"
